@@ -357,10 +357,23 @@ def runSection (r : Report) (s : Section) : Report := Id.run do
       | some p, some item =>
         let res := treeAdd st.tree p item
         r := r.addCover ("tadd-" ++ fmtAdd res)
+        if rooted p then
+          let tk := toksOf p
+          if tk.getLast? == some "" ∧ tk.length > 1 ∧ !(tk.dropLast.contains "") then r := r.addCover "tadd-trailing-slash"
+          if tk.head? == some "" ∧ tk.length > 1 then r := r.addCover "tadd-leading-double-slash"
+          if tk = [""] then r := r.addCover "tadd-root"
+        else if p = "" then r := r.addCover "tadd-empty-string"
         if fmtAdd res ≠ joinSp l.obs then r := r.mismatch s.idx l.idx (fmtAdd res) (joinSp l.obs)
+        -- monitor: the registration rule for raw strings, on the plain list of stored keys (no tree)
+        let sv := Spec.rawAddVerdict (st.ttbl.map (·.pats)) p item
+        if sv ≠ joinSp l.obs then
+          r := r.violation s.idx l.idx s!"Tree.Add {p}: the rule for raw routes demands [{sv}] implementation did [{joinSp l.obs}]"
         match res with
         | .ok t => st := { st with tree := t }
         | .error _ => pure ()
+        match sv, item with
+        | "ok", some h => st := { st with ttbl := st.ttbl ++ [{ method := "", pats := Spec.rawKey p, h := h }] }
+        | _, _ => pure ()
       | _, _ => r := r.mismatch s.idx l.idx "bad-op" (joinSp l.op)
     | "tsearch" :: args =>
       match arg "p=" args with
@@ -369,12 +382,36 @@ def runSection (r : Report) (s : Section) : Report := Id.run do
         let all := if rooted p then dedup ((nextAll (toksOf p) st.tree).map fun (h, ps) => fmtHit h ps) else []
         let det := match treeSearch st.tree p with | some (h, ps) => fmtHit h ps | none => "none"
         r := r.addCover (if det = "none" then "tsearch-none" else "tsearch-hit")
+        let tk := toksOf p
+        if rooted p then
+          if tk.getLast? == some "" ∧ tk.length > 1 then
+            r := r.addCover (if det = "none" then "tsearch-trailing-slash-none" else "tsearch-trailing-slash-hit")
+          if tk.dropLast.contains "" then
+            r := r.addCover (if det = "none" then "tsearch-empty-segment-none" else "tsearch-empty-segment-hit")
+        else r := r.addCover "tsearch-not-rooted"
         if all.length ≤ 1 then
           if outs ≠ [det] then r := r.mismatch s.idx l.idx det (" | ".intercalate outs)
         else
           r := r.addCover "tsearch-order-dependent"
           if !(outs.all all.contains) then
             r := r.mismatch s.idx l.idx (" | ".intercalate all) (" | ".intercalate outs)
+        -- monitor: found iff a stored key matches the raw elements (tree_search_raw); a hit names a stored
+        -- matching key's item with its bound segments
+        let cands := if rooted p then st.ttbl.filter (fun x => Spec.matchesRawB x.pats tk) else []
+        for o in outs do
+          if o = "none" then
+            match cands with
+            | c :: _ => r := r.violation s.idx l.idx s!"Tree.Search {p}: not found although the stored route h={c.h} matches"
+            | [] => pure ()
+          else
+            match parseObs o with
+            | .hit h vars =>
+              let ok := cands.any fun x =>
+                x.h == h && (if Spec.distinctNames x.pats then Spec.sameSet vars (Spec.binds x.pats tk)
+                             else vars.all (Spec.binds x.pats tk).contains)
+              if !ok then
+                r := r.violation s.idx l.idx s!"Tree.Search {p}: found [{o}] but the stored routes matching are [{",".intercalate (cands.map (fmtRoute tk))}]"
+            | _ => r := r.violation s.idx l.idx s!"Tree.Search {p}: unexpected result [{o}]"
       | none => r := r.mismatch s.idx l.idx "bad-op" (joinSp l.op)
     | _ => r := r.mismatch s.idx l.idx "bad-op" (joinSp l.op)
   return r
